@@ -144,8 +144,21 @@ func (c *Ctx) LenOf(v ssa.Value) Lin {
 		}
 	case *ssa.Call:
 		// bytes.Clone / slices.Clone keep the length
-		if n := guard.CalleeName(&x.Call); n == "bytes.Clone" || n == "slices.Clone" {
+		n := guard.CalleeName(&x.Call)
+		if n == "bytes.Clone" || n == "slices.Clone" {
 			return c.LenOf(x.Call.Args[0])
+		}
+		// h.Sum(nil) has length h.Size() (stdlib contract of hash.Hash)
+		if n == "(hash.Hash).Sum" && len(x.Call.Args) == 1 && guard.IsNilConst(x.Call.Args[0]) {
+			a := "Size(" + c.name(x.Call.Value) + ")"
+			c.nonneg[a] = true
+			return atom(a)
+		}
+		// a module function all of whose returns have the same constant length
+		if callee := x.Call.StaticCallee(); callee != nil && callee.Blocks != nil && callee.Signature.Results().Len() == 1 {
+			if k, ok := constResultLen(callee); ok {
+				return konst(k)
+			}
 		}
 	}
 	if pt, ok := v.Type().Underlying().(*types.Pointer); ok {
@@ -488,3 +501,36 @@ func (l Lin) Add(o Lin, k int64) Lin { return l.add(o, k) }
 
 // Konst makes a constant term.
 func Konst(c int64) Lin { return konst(c) }
+
+var constLenCache = map[*ssa.Function]int64{}
+
+// constResultLen: every return of f yields a slice of the same constant length.
+func constResultLen(f *ssa.Function) (int64, bool) {
+	if v, ok := constLenCache[f]; ok {
+		return v, v >= 0
+	}
+	constLenCache[f] = -1
+	cx := NewCtx(f)
+	res := int64(-1)
+	for _, b := range f.Blocks {
+		if len(b.Instrs) == 0 {
+			continue
+		}
+		ret, ok := b.Instrs[len(b.Instrs)-1].(*ssa.Return)
+		if !ok {
+			continue
+		}
+		l := cx.LenOf(ret.Results[0])
+		if len(l.Coef) != 0 {
+			return 0, false
+		}
+		if res >= 0 && res != l.C {
+			return 0, false
+		}
+		res = l.C
+	}
+	if res >= 0 {
+		constLenCache[f] = res
+	}
+	return res, res >= 0
+}
